@@ -19,6 +19,7 @@ ITYPES = {'_Bool': (1, False, 0), 'char': (8, True, 1), 'long long': (64, True, 
           'int': (32, True, 3), 'unsigned': (32, False, 3), 'long': (64, True, 4), 'unsigned long': (64, False, 4)}
 FTYPES = ['float', 'double']
 ALLT = list(ITYPES) + FTYPES
+ALLT_CUR = list(ALLT)  # the types of the program being generated (see program())
 UNS = {'signed char': 'unsigned char', 'char': 'unsigned char', 'short': 'unsigned short', 'int': 'unsigned', 'long': 'unsigned long', 'long long': 'unsigned long long'}
 
 
@@ -86,7 +87,7 @@ def expr(draw, env, depth, want=None, const_only=False):
         if leaves and draw(st.integers(0, 2)) > 0:
             txt, t, _ = draw(st.sampled_from(leaves))
             return txt, t
-        t = want or draw(st.sampled_from(ALLT))
+        t = want or draw(st.sampled_from(ALLT_CUR))
         return lit(draw, t), t
     k = draw(st.integers(0, 13))
     a, ta = draw(expr(env, depth - 1, None, const_only))
@@ -143,7 +144,7 @@ def expr(draw, env, depth, want=None, const_only=False):
         env.feats.add('conditional')
         return '((%s) ? (%s) : (%s))' % (a, b, c), uac(tb, tc)
     if k == 11:  # cast
-        t = draw(st.sampled_from(ALLT))
+        t = draw(st.sampled_from(ALLT_CUR))
         env.feats.add('cast')
         if is_int(t) and not is_int(ta):  # FP -> integer only in range
             return '(((%s) > -1e9 && (%s) < 1e9) ? (%s) (long) (%s) : (%s) 0)' % (a, a, t, a, t), t
@@ -163,6 +164,8 @@ def expr(draw, env, depth, want=None, const_only=False):
 
 @st.composite
 def program(draw, ctx):
+    # F68: c2mir truncates instead of comparing with 0 when it converts to _Bool (recorded finding)
+    ALLT_CUR[:] = [t for t in ALLT if not (t == '_Bool' and ctx.excluded('F68'))]
     env = Env()
     L = ['int printf (const char *, ...);', 'static unsigned long chk = 1;',
          '#define ACC(e) (chk = chk * 1000003ul + (unsigned long) (e))',
@@ -171,13 +174,13 @@ def program(draw, ctx):
     # globals
     gl = []
     for i in range(draw(st.integers(2, 6))):
-        t = draw(st.sampled_from(ALLT))
+        t = draw(st.sampled_from(ALLT_CUR))
         gl.append(('g%d' % i, t))
         L.append('static %s g%d = %s;' % (t, i, lit(draw, t)))
-    at = draw(st.sampled_from(list(ITYPES)))
+    at = draw(st.sampled_from([t for t in ALLT_CUR if is_int(t)]))
     L.append('static %s arr[4] = {%s};' % (at, ', '.join(lit(draw, at) for _ in range(4))))
     # struct with plain members and one with bit-fields
-    st_t = [draw(st.sampled_from(ALLT)) for _ in range(draw(st.integers(1, 4)))]
+    st_t = [draw(st.sampled_from(ALLT_CUR)) for _ in range(draw(st.integers(1, 4)))]
     L.append('struct S { %s };' % ' '.join('%s f%d;' % (t, i) for i, t in enumerate(st_t)))
     L.append('static struct S gs;')
     bfs = []
@@ -213,8 +216,8 @@ def program(draw, ctx):
     nfun = draw(st.integers(1, 3))
     protos = []
     for fi in range(nfun):
-        pt = [draw(st.sampled_from(ALLT)) for _ in range(draw(st.integers(0, 4)))]
-        rt = draw(st.sampled_from(ALLT))
+        pt = [draw(st.sampled_from(ALLT_CUR)) for _ in range(draw(st.integers(0, 4)))]
+        rt = draw(st.sampled_from(ALLT_CUR))
         by_struct = draw(st.integers(0, 3)) == 0
         protos.append((fi, rt, pt, by_struct))
     for fi, rt, pt, by_struct in protos:
@@ -225,7 +228,7 @@ def program(draw, ctx):
         body = []
         nloc = draw(st.integers(0, 3))
         for li in range(nloc):
-            t = draw(st.sampled_from(ALLT))
+            t = draw(st.sampled_from(ALLT_CUR))
             e, te = draw(expr(fenv, 2))
             body.append('  %s l%d = (%s) (%s);' % (t, li, t, safe_conv(e, te, t)))
             fenv.vars.append(('l%d' % li, t, True))
